@@ -108,6 +108,11 @@ def run(ck):
     m = ck.repo.mod(REL)
     meths, buf, cache = _fields(ck, m)
     SB, SC = "self." + buf, "self." + cache
+    # small straight-line helpers of the class (e.g. a padding builder extracted from __getitem__/__setitem__) are expanded at their
+    # call sites first, so that the rules see one body whatever the factoring (sa/prenorm.inline_helpers)
+    from sa.prenorm import inline_helpers
+    raw = dict(meths)
+    meths = dict((k, inline_helpers(f, raw) if k != "__init__" else f) for k, f in raw.items())
 
     ck.rule("R1", "every method mutating the byte array resets the search cache on every path from the "
                   "mutation to a normal exit", floor=2)
